@@ -177,7 +177,8 @@ func (self *systemMutateContext) Tx() *bbolt.Tx {
 }
 
 func (self *systemMutateContext) setTx(tx *bbolt.Tx) MutateContext {
-	return self.wrapped.setTx(tx)
+	self.wrapped.setTx(tx)
+	return self
 }
 
 func (self *systemMutateContext) IsSystemContext() bool {
@@ -189,5 +190,7 @@ func (self *systemMutateContext) Context() context.Context {
 }
 
 func (self *systemMutateContext) UpdateContext(f func(context.Context) context.Context) MutateContext {
-	return self.wrapped.UpdateContext(f)
+	// the context which is handed back (ctx = ctx.UpdateContext(...)) is this one, not the ordinary one it wraps
+	self.wrapped.UpdateContext(f)
+	return self
 }
